@@ -179,7 +179,7 @@ int main() {
     std::vector<std::string> w;
     for (std::string t; is >> t;) w.push_back(t);
     if (w.empty()) { vh::emit(""); continue; }
-    if (w[0] == "G") {
+    if (w[0] == "G" || w[0] == "GR") {
       cur.reset();
       try {
         std::string cls = w[1];
@@ -191,6 +191,7 @@ int main() {
         for (std::size_t i = 0; i < d; ++i) mask.push_back(w[4 + d + i] == "1");
         std::vector<double> vals;
         for (std::size_t i = 4 + 2 * d; i < w.size(); ++i) vals.push_back(pv(w[i]));
+        if (w[0] == "G") {
         std::streambuf* old = std::cerr.rdbuf(nullptr);
         try {
           if (cls == "base") cur = mk<CBase>(sizes, vals, top);
@@ -198,6 +199,35 @@ int main() {
           std::cerr.rdbuf(old);
         } catch (...) { std::cerr.rdbuf(old); throw; }
         vh::emit(cur ? "ok" : "UNSUPPORTED");
+        } else {
+          // "GR": the same complex reached through a history on one object: build it with OTHER values (the wanted ones
+          // reversed), read the filtration order once, write the wanted values into the top cells / vertices through
+          // get_cell_data, impose the lower star again and re-initialise the filtration
+          std::vector<double> other(vals.rbegin(), vals.rend());
+          auto rebuild = [&](auto& K) {
+            (void)std::distance(K.filtration_simplex_range().begin(), K.filtration_simplex_range().end());
+            std::size_t k = 0;
+            const double inf = std::numeric_limits<double>::infinity();
+            // the propagation only lowers (resp. raises) what is stored: every derived cell is first reset to the neutral value
+            if (top) {
+              for (std::size_t c = 0; c < K.num_simplices(); ++c) K.get_cell_data(c) = inf;
+              for (auto it = K.top_dimensional_cells_iterator_begin(); it != K.top_dimensional_cells_iterator_end(); ++it) K.get_cell_data(*it) = vals.at(k++);
+              K.impose_lower_star_filtration();
+            } else {
+              for (std::size_t c = 0; c < K.num_simplices(); ++c) K.get_cell_data(c) = -inf;
+              for (auto it = K.vertices_iterator_begin(); it != K.vertices_iterator_end(); ++it) K.get_cell_data(*it) = vals.at(k++);
+              K.impose_lower_star_filtration_from_vertices();
+            }
+            K.initialize_filtration();
+          };
+          std::streambuf* old = std::cerr.rdbuf(nullptr);
+          try {
+            if (cls == "base") { auto h = std::make_unique<Holder<CBase>>(); h->c = std::make_unique<CBase>(sizes, other, top); rebuild(*h->c); cur = std::move(h); }
+            else if (cls == "per") { auto h = std::make_unique<Holder<CPer>>(); h->c = std::make_unique<CPer>(sizes, other, mask, top); rebuild(*h->c); cur = std::move(h); }
+            std::cerr.rdbuf(old);
+          } catch (...) { std::cerr.rdbuf(old); throw; }
+          vh::emit(cur ? "ok" : "UNSUPPORTED");
+        }
       } catch (const std::invalid_argument&) { vh::emit("EXC invalid_argument");
       } catch (const std::exception& e) { vh::emit(std::string("EXC ") + e.what()); }
       continue;
